@@ -72,9 +72,19 @@ func scratchBase() string {
 	return "/var/tmp"
 }
 
+// scratch directories to remove before the process exits (os.Exit skips defers)
+var scratchDirs []string
+
+func exit(code int) {
+	for _, d := range scratchDirs {
+		os.RemoveAll(d)
+	}
+	os.Exit(code)
+}
+
 func trouble(format string, args ...any) {
 	fmt.Fprintf(os.Stderr, "check: TROUBLE (exit 2, not a violation): "+format+"\n", args...)
-	os.Exit(2)
+	exit(2)
 }
 
 func goEnv() []string {
@@ -696,6 +706,7 @@ func collectFailures(prop string, seed uint64, bo *batchOutcome, into map[string
 // class observed ("" if the run passed).
 func confirmReplay(bins map[bool]string, prop string, rf *replayFile, path string) (string, string, map[string]any) {
 	outDir, _ := os.MkdirTemp(scratchBase(), "verif-replay-")
+	scratchDirs = append(scratchDirs, outDir)
 	defer os.RemoveAll(outDir)
 	env := append(os.Environ(), "VERIF_PROP="+prop, "VERIF_REPLAY="+path)
 	r := runWorker(bins[rf.Race], env, outDir, 0)
@@ -721,6 +732,7 @@ func confirmReplay(bins map[bool]string, prop string, rf *replayFile, path strin
 
 func shrink(bins map[bool]string, prop string, rf *replayFile, tc tierCfg) *replayFile {
 	dir, _ := os.MkdirTemp(scratchBase(), "verif-shrink-")
+	scratchDirs = append(scratchDirs, dir)
 	defer os.RemoveAll(dir)
 	in := filepath.Join(dir, "in.json")
 	b, _ := json.Marshal(rf)
@@ -804,7 +816,7 @@ func main() {
 	if err != nil {
 		trouble("mktemp: %v", err)
 	}
-	defer os.RemoveAll(outRoot)
+	scratchDirs = append(scratchDirs, outRoot)
 	fmt.Printf("check: property=%s tier=%s seed=%d tree=%s workers=%d budget=%ds/worker\n", prop, tier, seed, treeKey(), tc.workers, tc.seconds)
 	var batches []*batchOutcome
 	failures := map[string]*found{}
@@ -827,7 +839,7 @@ func main() {
 		classes = append(classes, c)
 	}
 	sort.Strings(classes)
-	exit := 0
+	exitCode := 0
 	var violationLines, knownLines []string
 	var evViolations []map[string]any
 	var evKnown []map[string]any
@@ -867,7 +879,7 @@ func main() {
 			knownLines = append(knownLines, fmt.Sprintf("KNOWN-FINDING: property=%s %s [class %s; %d runs; replay=%s]", prop, known.What, c, f.count, path))
 			evKnown = append(evKnown, entry)
 		} else {
-			exit = 1
+			exitCode = 1
 			violationLines = append(violationLines, fmt.Sprintf("VIOLATION property=%s replay=%s", prop, path))
 			fmt.Printf("violation class=%s seed=%d run=%d occurrences=%d\n  %s\n", c, f.seed, f.run, f.count, strings.ReplaceAll(clip(gotDetail, 2500), "\n", "\n  "))
 			evViolations = append(evViolations, entry)
@@ -885,7 +897,7 @@ func main() {
 		total += b.runs
 	}
 	fmt.Printf("check: %s %s: %d simulated runs, %d violation class(es), %d known finding(s), %.1fs\n", prop, tier, total, len(violationLines), len(knownLines), time.Since(t0).Seconds())
-	os.Exit(exit)
+	exit(exitCode)
 }
 
 func clip(s string, n int) string {
@@ -936,7 +948,7 @@ func doReplay(bins map[bool]string, prop, path string) {
 	class, detail, rec := confirmReplay(bins, prop, &rf, path)
 	if class == "" {
 		fmt.Printf("replay: run passed (no violation) on tree %s (file was recorded on tree %s)\n", treeKey(), rf.TreeHash)
-		os.Exit(0)
+		exit(0)
 	}
 	fmt.Printf("replay: class=%s\n  %s\n", class, strings.ReplaceAll(clip(detail, 4000), "\n", "\n  "))
 	if rec != nil {
@@ -948,8 +960,8 @@ func doReplay(bins map[bool]string, prop, path string) {
 	}
 	if f := matchFinding(loadFindings(), prop, class, detail); f != nil {
 		fmt.Printf("KNOWN-FINDING: property=%s %s\n", prop, f.What)
-		os.Exit(0)
+		exit(0)
 	}
 	fmt.Printf("VIOLATION property=%s replay=%s\n", prop, path)
-	os.Exit(1)
+	exit(1)
 }
